@@ -5,3 +5,4 @@ pub mod regen;
 pub mod rng;
 pub mod astser;
 pub mod classgen;
+pub mod world;
